@@ -63,6 +63,12 @@ def cases(draw, nums=("frac",), mode=None):
         m = draw(st.integers(0, max(n - 1, 0)))
     Z = draw(gen.ctrlpoints(max(m, 1), dim))[:m]
     Q = draw(gen.ctrlpoints(n, dim))
+    if "frac" in nums:
+        # numeric regimes (exact profile): least squares is linear in the data, whatever their magnitude
+        sc = draw(st.sampled_from([F(1)] * 6 + [F(10 ** 8), F(1, 10 ** 8), F(1, 10 ** 11)]))
+        if sc != 1:
+            mul = (lambda x: x * sc) if dim == 0 else (lambda x: [c * sc for c in x])
+            Z, Q = [mul(z) for z in Z], [mul(q) for q in Q]
     if draw(st.booleans()):
         nodes = draw(st.permutations(nodes))  # the statement does not ask for sorted nodes
     return {"U": U, "p": p, "w": w, "nodes": list(nodes), "Z": Z, "Q": Q, "mode": mode, "dim": dim,
@@ -208,6 +214,7 @@ def function_cases(draw):
     n = len(U) - p - 1
     return {"U": U, "p": p, "w": draw(gen.pos_weights(n)) if draw(st.integers(0, 4)) < 2 else None,
             "Q": draw(gen.ctrlpoints(n, draw(st.sampled_from([0, 0, 2])))),
+            "scale": draw(st.sampled_from([F(1)] * 6 + [F(10 ** 8), F(1, 10 ** 8), F(1, 10 ** 11)])),
             "decoy": draw(st.integers(0, 2)) == 0,
             "num": draw(st.sampled_from(["frac", "frac", "float"]))}
 
@@ -223,6 +230,9 @@ def check_function(case, out):
     w = None if wl is None else [oracle.frac(x) for x in wl]
     scalar = not isinstance(case["Q"][0], (list, tuple))
     Qf = [tuple(oracle.frac(lib.conv_val(x, num)) for x in ([q] if scalar else q)) for q in case["Q"]]
+    if exact and case.get("scale", 1) != 1:
+        Qf = [tuple(x * case["scale"] for x in q) for q in Qf]
+        out.cls("scaled-data")
     target = State(U, p, Qf, w, scalar)
     kind = ("rational" if w is not None else "polynomial") + (";exact" if exact else ";float")
     bk = oracle.breaks(U)
